@@ -1,5 +1,6 @@
 import KmipModel.WF
 import KmipProofs.DecodeItems
+import KmipProofs.NormCanon
 /-
   C01 helpers: the specification reads back the canonical encoding of a well-formed value as the normalised value.
 -/
@@ -490,16 +491,6 @@ theorem V_prim (tag : Nat) (prev : List FV) (ty : FTy) (rest : Bytes) (ht : tag 
 theorem zeroFld_skip (nm : String) (tag : Nat) (req sl : Bool) (ty : FTy) :
     zeroFld (.mk nm tag req sl true ty) = .skip false := by
   cases ty <;> rfl
-
-theorem normFV_one_absent (f : Fld) (v : Val) (hig : f.ignored = false) (hz : (!f.required && specZero f.ty v) = true) :
-    normFV f (.one v) = zeroFld f := by
-  simp [normFV, hig, hz]
-
-theorem normFV_one_present (f : Fld) (v : Val) (hig : f.ignored = false) (hz : ¬ (!f.required && specZero f.ty v) = true) :
-    normFV f (.one v) = .one (normVal f.ty v) := by
-  have : (!f.required && specZero f.ty v) = false := by simpa using hz
-  simp only [normFV, hig, this, Bool.or_self]
-  simp
 
 theorem canonMany_len (tag : Nat) (ty : FTy) : ∀ (vs : List Val), vs.length ≤ (Item.serList (canonMany tag ty vs)).length
   | [] => by simp
